@@ -288,7 +288,7 @@ def probe_rules():
     """the rule switches of the tree under test, as `ru=` digits (same probe as harness/tables/inplace.py)"""
     from tables import inplace as tbl
 
-    p = tbl.probe()
+    p = tbl.probe_or_default()
     return f"{int(p['memcpy_wp'])}{int(p['elementwise_var'])}{int(p['memcpy_var'])}"
 
 
@@ -768,7 +768,9 @@ def classify(ck, outs):
     return out
 
 
-def stage(ck, outs, prefix="inplace_"):
+def stage(ck, outs, prefix="inplace_", stub=True, compiled=True):
+    """`stub`: the generated graphs (function level); `compiled`: the records of the compiled networks in `outs`.
+    check_C12 runs the two separately so that the function-level reports come first."""
     import common
     import re
     import time
@@ -778,12 +780,13 @@ def stage(ck, outs, prefix="inplace_"):
     nstub = 8000 if ck.thorough else 2500
     stub_owner = {"idx": -1, "profile": "stub", "seed": ck.seed, "opts": [], "desc": "generated stub graph (no network)"}
     inst, owners = [], []
-    srecs, skipped = stub_records(ck.rng, nstub, rules)
-    ck.count(prefix + "stub_skipped", skipped)
-    for r in srecs:
-        inst.append(r)
-        owners.append(dict(stub_owner, idx=r["stub"]))
-    for o in outs:
+    if stub:
+        srecs, skipped = stub_records(ck.rng, nstub, rules)
+        ck.count(prefix + "stub_skipped", skipped)
+        for r in srecs:
+            inst.append(r)
+            owners.append(dict(stub_owner, idx=r["stub"]))
+    for o in (outs if compiled else []):
         ex = (o.get("extra") or {}).get("inplace")
         if not ex:
             continue
@@ -841,14 +844,14 @@ def stage(ck, outs, prefix="inplace_"):
     for n_i, (r, o, sa, sm) in rejected.items():
         key = _key_for(rules, r, _victims(sm))
         ck.count(prefix + "spec_rejections" + ("_known" if key else ""))
-        if True:
+        if reported < 5 or key is not None:
             reported += 1
             ck.violation("an operator writes its result over a value that is still needed (in-place decision of "
                          f"_get_ifm_to_fuse): {sa} (instance {o['idx']} {o['profile']} {o.get('opts')})",
                          {"profile": o["profile"], "seed": o["seed"], "index": o["idx"], "opts": o.get("opts"),
                           "network": o.get("desc"), "inplacespec_request": r["spec"][:4000], "verdict": sa,
                           "inplace_request": r["line"][:4000]}, found_input=True, key=key)
-    for n_i, r, o, bad, ans in disagreements[:6]:
+    for n_i, r, o, bad, ans in disagreements[:5]:
         ck.violation(f"in-place model and the real code disagree: {bad} (instance {o['idx']} {o['profile']} {o.get('opts')})",
                      {"profile": o["profile"], "seed": o["seed"], "index": o["idx"], "opts": o.get("opts"),
                       "network": o.get("desc"),
